@@ -34,6 +34,10 @@ type Options struct {
 	SyncTypes  bool
 	Stderr     bool
 	MapRanges  bool
+	// Procs: runtime.GOMAXPROCS(0) and runtime.NumCPU() become simrt.Procs(),
+	// a per-run value chosen by the simulator (the number of processors is an
+	// input of the environment like any other)
+	Procs bool
 }
 
 type Site struct {
@@ -51,6 +55,7 @@ type Stats struct {
 	MemoMissPoints int
 	MemoEvictPoint int
 	SyncReplaced   int
+	ProcsReplaced  int
 	StderrReplaced int
 	MapRangesWoven int
 	MapRangesSeen  int // range statements over a map type found by go/types
@@ -186,6 +191,8 @@ func (w *Weaver) weaveFile(fset *token.FileSet, f *ast.File, src []byte, rel str
 	osName, hasOS := importName(f, "os")
 	fmtName, hasFmt := importName(f, "fmt")
 	usedSync, usedOS := false, false
+	runtimeName, hasRuntime := importName(f, "runtime")
+	usedRuntime := false
 
 	var funcStack []string
 	// statement-level yields: before every statement of a block except the
@@ -329,6 +336,23 @@ func (w *Weaver) weaveFile(fset *token.FileSet, f *ast.File, src []byte, rel str
 				}
 			}
 		case *ast.CallExpr:
+			if opt.Procs && hasRuntime {
+				if fun, ok := x.Fun.(*ast.SelectorExpr); ok {
+					if pk, ok := fun.X.(*ast.Ident); ok && pk.Name == runtimeName {
+						isProcs := fun.Sel.Name == "NumCPU" && len(x.Args) == 0
+						if fun.Sel.Name == "GOMAXPROCS" && len(x.Args) == 1 {
+							if lit, ok := x.Args[0].(*ast.BasicLit); ok && lit.Value == "0" {
+								isProcs = true
+							}
+						}
+						if isProcs {
+							add(off(x.Pos()), off(x.End())-off(x.Pos()), alias+".Procs()")
+							w.Stats.ProcsReplaced++
+							usedRuntime = true
+						}
+					}
+				}
+			}
 			if opt.Stderr && hasOS && hasFmt && len(x.Args) > 0 {
 				if fun, ok := x.Fun.(*ast.SelectorExpr); ok {
 					if pk, ok := fun.X.(*ast.Ident); ok && pk.Name == fmtName && strings.HasPrefix(fun.Sel.Name, "Fprint") {
@@ -357,6 +381,9 @@ func (w *Weaver) weaveFile(fset *token.FileSet, f *ast.File, src []byte, rel str
 	}
 	if usedOS {
 		tail += fmt.Sprintf("\nvar _ = %s.Stderr\n", osName)
+	}
+	if usedRuntime {
+		tail += fmt.Sprintf("\nvar _ = %s.NumCPU\n", runtimeName)
 	}
 	sort.SliceStable(edits, func(i, j int) bool {
 		if edits[i].off != edits[j].off {
